@@ -48,8 +48,15 @@ def run_paths(ctx, fi: FuncInfo, make_args: Callable[[Interp], tuple], facts: Li
 
     def run(path: Path) -> Outcome:
         I = Interp(ctx.program, path, hooks=dict(hooks or {}))
+        I.step_loop = None
+        try:
+            args, kwargs = make_args(I)
+        except RaiseSig as rs:
+            out = Outcome("setup-abort", rs.exc, path)
+            out.interp = I
+            out.checks = []
+            return out
         I.step_loop = step_loop
-        args, kwargs = make_args(I)
         I.kernel_args = args
         try:
             v = I.call_function(fi, list(args), dict(kwargs))
@@ -68,6 +75,7 @@ def run_paths(ctx, fi: FuncInfo, make_args: Callable[[Interp], tuple], facts: Li
 
 def emit(ctx, outs: List[Outcome], where: str, prefix: str = ""):
     r = ctx.report
+    outs = [o for o in outs if o.kind != "setup-abort"]
     if not outs:
         raise AnalysisError("no feasible path explored (%s)" % where)
     for o in outs:
